@@ -55,11 +55,26 @@ class LSim(mosaik_api_v3.Simulator):
         return time_ + 1 if self.typ == 'time-based' else None
     def get_data(self, outputs):
         self._seen()
-        yield asyncio.sleep(0)
+        if self.hold == 'stuck':
+            yield asyncio.get_event_loop().create_future()     # (never answers: whoever asked must be able to give up)
+        yield asyncio.sleep(0.3 if self.hold else 0)        # (a held simulator is really suspended while it collects its outputs)
         self._fault('get_data')
         return {'e': {'po': {1, 2} if self.unser else self.n['step']}}
     def finalize(self):
         FINALIZED[self.sid] += 1
+
+
+class ASim(LSim):
+    """a simulator that, in its second step, asks mosaik for data of two other simulators at once (an asynchronous get_data
+    request over async_requests connections)"""
+    def step(self, time_, inputs, max_advance):
+        self._seen()
+        STEPS.append((time.time(), self.sid, time_))
+        if time_ == 1:
+            yield self.mosaik.get_data({'S0.e': ['po'], 'S2.e': ['po']})
+        else:
+            yield asyncio.sleep(0)
+        return time_ + 1
 
 
 class PSim(LSim):
@@ -124,7 +139,7 @@ def one(topology, faulty, fkind, req, index, remote):
     FINALIZED.clear(); STEPS.clear(); AFTER.clear()
     logf = tempfile.mktemp(prefix='c14-', suffix='.log', dir=common.BUILD)
     n = 2 if topology in ('pair', 'trig') else 3      # 'trigfree': A -> B (event-based, waits for triggers) and an unconnected third simulator
-    cfg = {'L': {'python': 'harness.props.c14:LSim'}, 'P': {'python': 'harness.props.c14:PSim'}, 'O': {'python': 'harness.props.c14:OSim'},
+    cfg = {'L': {'python': 'harness.props.c14:LSim'}, 'A': {'python': 'harness.props.c14:ASim'}, 'P': {'python': 'harness.props.c14:PSim'}, 'O': {'python': 'harness.props.c14:OSim'},
            'R': {'cmd': f'{common.PY} -m harness.remote_sim %(addr)s', 'env': {'PYTHONPATH': f'{common.REPO}:{common.VERIF}', 'LOGURU_LEVEL': 'CRITICAL'}},
            'RA': {'cmd': f'{common.PY} -m harness.remote_sim %(addr)s', 'env': {'PYTHONPATH': f'{common.REPO}:{common.VERIF}', 'LOGURU_LEVEL': 'CRITICAL', 'VERIF_RSIM_ASK': '1'}}}
     tw = TaskWarnings(); alog = logging.getLogger('asyncio'); old_level = alog.level
@@ -156,10 +171,12 @@ def one(topology, faulty, fkind, req, index, remote):
             elif remote == 'all':
                 ents.append(w.start('R', sim_id=f'S{i}', beh={'type': 'time-based', 'step_size': 1, 'default_output': [None, ['po']]}, log=logf, seed=i, fault=None).M())
             else:
-                ents.append(w.start('O' if (i == faulty and ':old:' in fkind) else 'P' if (i == faulty and ':plain:' in fkind) else 'L', sim_id=f'S{i}', fault=fault, hold=(':held' in fkind and i != faulty), unser=(fkind.startswith('askbad') and i == 0), typ=('event-based' if topology in ('trig', 'trigfree') and i == 1 else 'time-based')).M())
+                ents.append(w.start('A' if (topology == 'ask2' and i == 1) else 'O' if (i == faulty and ':old:' in fkind) else 'P' if (i == faulty and ':plain:' in fkind) else 'L', sim_id=f'S{i}', fault=fault, hold=('stuck' if (':stuck' in fkind and i == 2) else (':held' in fkind and i != faulty)), unser=(fkind.startswith('askbad') and i == 0), typ=('event-based' if topology in ('trig', 'trigfree') and i == 1 else 'time-based')).M())
         if topology == 'ask':
             w.connect(ents[0], ents[1], async_requests=True)      # S1 may ask S0 for data; nothing else is connected
-        for i in range(0 if topology == 'ask' else (n - 1) if topology not in ('free', 'trigfree') else 1):
+        if topology == 'ask2':
+            w.connect(ents[0], ents[1], async_requests=True); w.connect(ents[2], ents[1], async_requests=True)   # S1 asks S0 and S2
+        for i in range(0 if topology in ('ask', 'ask2') else (n - 1) if topology not in ('free', 'trigfree') else 1):
             w.connect(ents[i], ents[i + 1], ('po', 'i'))      # 'free': A->B and an unconnected third simulator
         try:
             w.run(until=4, print_progress=False)
@@ -175,6 +192,11 @@ def one(topology, faulty, fkind, req, index, remote):
             try: w.shutdown()                  # the caller's own clean-up: a second shutdown
             except BaseException as e: res['second_shutdown'] = type(e).__name__
         res['loop_closed'] = w.loop.is_closed()
+        try:
+            # tasks that are still pending on the World's loop after run() and shutdown (the loop keeps a weak set of its tasks)
+            res['tasks_left'] = sorted(str(t.get_coro())[:80] for t in asyncio.all_tasks(w.loop) if not t.done())
+        except BaseException:
+            res['tasks_left'] = []
         if not w.loop.is_closed():
             try: w.shutdown()
             except BaseException: pass
@@ -229,6 +251,7 @@ def monitor(n, faulty, remote, fkind, res):
         if c != 1: bad.append(f'healthy simulator S{i} was finalized {c} times')
     if res['live_children']: bad.append(f"simulator process(es) left running: {res['live_children']}")
     if res.get('sockets_left_open'): bad.append(f"{res['sockets_left_open']} socket(s) of this run were still open after run() and shutdown")
+    if res.get('tasks_left') and ':ownloop' not in fkind: bad.append(f"{len(res['tasks_left'])} task(s) still pending on the event loop after run(): {res['tasks_left'][:2]}")
     if res['pending_task_warnings']: bad.append(f"{res['pending_task_warnings']} event-loop task(s) were still pending when the loop was closed")
     return bad
 
@@ -259,6 +282,10 @@ def cases(tier):
     # request fails, the run ends with that failure reported and everything is cleaned up
     for index in (0, 2):
         out.append(('ask', 1, 'askbad:S0', 'step', index, True))
+    # one request for data of two simulators: the first fails in get_data while the second is still collecting its outputs
+    out.append(('ask2', 0, 'raise:held', 'get_data', 0, False))
+    out.append(('ask2', 0, 'raise:stuck', 'get_data', 0, False))
+    out.append(('ask2', 0, 'raise', 'get_data', 0, False))
     # healthy simulators that are suspended inside their step (on a timer) at the moment of the failure
     for topology, faulty in (('free', 2), ('free', 0), ('pair', 1), ('chain', 2)):
         for fk, req, index in (('raise:held', 'step', 1), ('raise:held', 'step', 2), ('raise:plain:held:RuntimeError', 'step', 1), ('raise:held@3', 'step', 1)):
